@@ -203,8 +203,9 @@ void harness(void) {
 	    ((ev_flags & TP_F_ERROR) && vf_cb_error == (int)ev_fflags), "an error reaches the callback only if the pool or a system call reported it");
 	VF_ASSERT(vf_cb_calls == 1 || (vf_io_calls > 0 && ((vf_io_last_ret == -1 && FILTERED(vf_io_last_errno)) || (vf_io_last_ret > 0 && sum >= ev_data && sum < b_tr))),
 	    "no callback only when the kernel has nothing more right now (or the announced amount was moved and window space remains)");
-	VF_ASSERT(vf_cb_calls == 0 || !have_io || vf_io_last_ret <= 0 || buf.transfer_size == 0 || (VF_EVENT == 1 && (tflags & TP_TASK_F_CB_AFTER_EVERY_READ)),
-	    "callback after a successful transfer only when the window is complete or callback-after-every-read is set");
+	VF_ASSERT(vf_cb_calls == 0 || !have_io || vf_io_last_ret <= 0 || buf.transfer_size == 0 || (VF_EVENT == 1 && (tflags & TP_TASK_F_CB_AFTER_EVERY_READ)) ||
+	    ((ev_flags & TP_F_ERROR) && ev_fflags != 0),
+	    "callback after a successful transfer only when the window is complete, callback-after-every-read is set, or a socket error has to be delivered");
 	/* timer handling before the I/O: disabled (one-shot: deleted) */
 	if (timeout != 0)
 		VF_ASSERT(vf_ev_cnt >= 1 && vf_ev[0].event == TP_EV_TIMER && vf_ev[0].ud == &task.tp_timer &&
